@@ -25,6 +25,7 @@ class Runner:
         if w is None:
             W = NTTWorld(s.cfg, omp=s.omp, sroa=True)
             this = W.construct(cap, nthreads, ext)
+            W.I.global_writes = set()       # from here on: process-wide state written by calls (function-local statics, ...)
             w = (W, this, W.snapshot())
             s.worlds[k] = w
         return w
